@@ -194,6 +194,34 @@ func runC18(c *engine.Ctx) {
 						dels++
 					}
 				}
+				if dels < 2 {
+					// the deletion sits under conditions of its own and OnClose under a flag set there: follow every
+					// way through the function and count the deletions passed before OnClose is reached
+					reached, least := 0, 2
+					target := ci.Instr
+					ev := &engine.Evaluator{MaxVisits: 2}
+					ev.CountEvent = func(in ssa.Instruction) int {
+						if cc, ok := in.(*ssa.Call); ok {
+							if b, isB := cc.Call.Value.(*ssa.Builtin); isB && b.Name() == "delete" {
+								return 1
+							}
+						}
+						return 0
+					}
+					ev.StopAt = func(in ssa.Instruction) bool { return in == target }
+					ev.AtEnd = func(at ssa.Instruction, count int, get func(ssa.Value) engine.EVal) {
+						if at == target {
+							reached++
+							if count < least {
+								least = count
+							}
+						}
+					}
+					ev.Run(f)
+					if !ev.Aborted && reached > 0 {
+						dels = least
+					}
+				}
 				c.Decide(r2, engine.FuncName(f)+"|OnClose", ci.Instr.Pos(), member >= 2 && dels >= 2,
 					"OnClose only for an existing subscription, after it has been deleted (so it cannot be closed twice)",
 					fmt.Sprintf("OnClose is not guarded by the membership tests (%d of 2) or does not follow the deletion of the subscription (%d of 2): a subscription can be closed twice or receive events after close", member, dels))
